@@ -4,7 +4,7 @@ from vlib.family import run_prop
 from vlib.shapes import S, STEP, UNTIL, dedup, job, steppers
 
 PROP = "C10"
-GROUPS = {"C01", "C10"}
+GROUPS = {"C01", "C10", "C09"}
 
 
 def shapes(tier):
@@ -19,6 +19,17 @@ def shapes(tier):
                 continue  # two series under two step_until: thorough tier
             J.append(job([S("periodic", 1, dl=dl), S("periodic", 2, dl="abs", origin=1)] + st, max_steps=3 if nu < 2 else 2))
             J.append(job([S("kperiodic", 1, dl=dl), S("periodic", 2, dl="rel")] + st, max_steps=3 if nu < 2 else 2))
+    # coinciding occurrences of several series of one origin whose sends have to suspend (full mailbox): no occurrence is lost
+    for o in (0, 1):
+        J.append(job([S("periodic", 1, origin=o), S("periodic", 2, origin=o), S("periodic", 3, origin=o), STEP, STEP], pending=True))
+        J.append(job([S("periodic", 1, origin=o), S("periodic", 2, origin=o, dl="rel"), UNTIL("abs")], pending=True, max_steps=3))
+    # "... until it is cancelled": a cancelled series stops, also when it shares its deadline and origin with other series
+    for c_at in (3, 4):
+        sc = [S("periodic", 1), S("periodic", 2), S("kperiodic", 3)]
+        tail = [STEP, STEP, STEP]
+        tail.insert(c_at - 3, dict(op="cancel", key=3))
+        J.append(job(sc + tail))
+    J.append(job([S("kperiodic", 1), STEP, dict(op="cancel", key=1), STEP, UNTIL("rel")], max_steps=3))
     J.append(job([S("periodic", 1), STEP, STEP, STEP, STEP, STEP]))
     J.append(job([S("periodic", 1), UNTIL("abs")], max_steps=6))
     if tier == "thorough":
